@@ -556,8 +556,10 @@ def check_program(ctx, prog):
                 ctx.fail("program:values", {"kind": "program", "prog": prog, "var": nm, "got": np.asarray(val).tolist(), "want": r.tolist()},
                          "a program with rechunks computes other values than NumPy")
                 return
-            if tuple(sum(c) for c in y.chunks) != tuple(r.shape) or tuple(oc) != tuple(y.chunks) or (
-                st["op"] == "rechunk" and tuple(map(tuple, y.chunks)) != tuple(tuple(c) for c in st["chunks"])
+            # layout claims are checked on the rechunked variables only (the advertised-vs-optimized layout of other
+            # ops is property C03's)
+            if tuple(sum(c) for c in y.chunks) != tuple(r.shape) or (
+                st["op"] == "rechunk" and (tuple(oc) != tuple(y.chunks) or tuple(map(tuple, y.chunks)) != tuple(tuple(c) for c in st["chunks"]))
             ):
                 ctx.fail("program:chunks", {"kind": "program", "prog": prog, "var": nm, "chunks": [list(c) for c in y.chunks],
                                             "optimized_chunks": [list(c) for c in oc]},
